@@ -121,7 +121,13 @@ def run_step(route, target, a, path):
     before = observe(path)
     if a["time_now"]:
         a["now_lo"] = limbs(time.time())
-    kind, val = drv.call_with_watchdog(lambda: apply_op(route, target, a, path), 30.0)
+    if route == "direct":                      # a plain function call on local files: nothing to wait for
+        try:
+            kind, val = "ok", apply_op(route, target, a, path)
+        except Exception as e:
+            kind, val = "exc", e
+    else:
+        kind, val = drv.call_with_watchdog(lambda: apply_op(route, target, a, path), 30.0)
     if kind == "hang":
         raise Machinery("attribute change did not return within 30 s (route %s)" % route)
     if a["time_now"]:
@@ -215,10 +221,14 @@ def run(c):
         s = batch[tid - 1]["steps"][line - 1]
         a = s["attr"]
         fields = "+".join(k for k in ("perm", "own", "time", "size") if a["has_" + k])
-        what = ("attribute change (%s) via %s route%s: clause %s fails - before %d bytes %r.., after %d bytes %r.. mode %o->%o%s"
-                % (fields, route, (" size %d (%s)" % (a["size"], sclass)) if a["has_size"] else "", clause,
-                   len(s["before"]["content"]), s["before"]["content"][:8], len(s["after"]["content"]), s["after"]["content"][:8],
-                   s["before"]["perm"], s["after"]["perm"], (" raised " + s["exc"]) if s["raised"] else ""))
+        b, f = s["before"], s["after"]
+        want = {k: a[k] for k in ("perm", "uid", "gid", "atime", "mtime", "size") if a["has_" + {"uid": "own", "gid": "own", "atime": "time", "mtime": "time"}.get(k, k)]}
+        what = ("attribute change %r%s via %s route: clause %s fails - before: %d bytes %r.. mode %o owner %d:%d times %d/%d; "
+                "after: %d bytes %r.. mode %o owner %d:%d times %d/%d%s"
+                % (want, (" (%s)" % sclass) if a["has_size"] else "", route, clause,
+                   len(b["content"]), b["content"][:8], b["perm"], b["uid"], b["gid"], unlimbs(b["atime"]), unlimbs(b["mtime"]),
+                   len(f["content"]), f["content"][:8], f["perm"], f["uid"], f["gid"], unlimbs(f["atime"]), unlimbs(f["mtime"]),
+                   (" raised " + s["exc"]) if s["raised"] else ""))
         rep = {"route": route, "attr": a, "before": dict(s["before"], content=s["before"]["content"][:64]),
                "after": dict(s["after"], content=s["after"]["content"][:64]), "exc": s["exc"]}
         return clause, what, rep
